@@ -78,18 +78,23 @@ def parse_res(r):
     if not m:
         return None
     created = int(m.group(2))
-    return {"doc": m.group(1), "created": created, "updated": created if m.group(3) == "-" else int(m.group(3)), "hash": m.group(4),
+    return {"doc": m.group(1), "created": created, "updated": created if m.group(3) == "-" else int(m.group(3)), "updated_raw": m.group(3), "hash": m.group(4),
             "src": [x for x in m.group(6).split(",") if x], "deact": m.group(7) == "true"}
 
 
 def check_seq_line(op, line, i, flag):
     """clauses of the property evaluated on ONE full observation of the implementation, against expectations computed
     from the event set alone (independent of the Lean model)"""
+    if line.startswith("observepanic") or " observepanic" in line[:200]:
+        flag("observe-panic", "store-read-path-panics", "Conflicted / Iterate / a counter panicked", i)
+        return
+    if "restarterr@" in line:
+        flag("restart-fails", "store-cannot-be-reopened", "Configure() of a new store object on the same database fails mid-sequence", i)
     for kind in ("adderr", "addpanic", "addswallowed"):
         if kind + "@" in line:
             flag("add-refused", "add-of-accepted-transaction-fails-in-some-arrival-order" if kind == "adderr" else kind,
                  "store.Add of a valid event returned an error / panicked / swallowed a storage failure", i)
-    obs = parse_line(re.sub(r"^((adderr|addpanic|addswallowed)@\S+ )+", "", line))
+    obs = parse_line(re.sub(r"^((adderr|addpanic|addswallowed|restarterr)@\S+ )+", "", line))
     events, times = op["events"], op["times"]
     per = {}
     for k, e in enumerate(events):
@@ -165,9 +170,13 @@ def check_seq_line(op, line, i, flag):
             if res is None:
                 if r not in ("err:not-found", "err:deactivated"):
                     bad = "unexpected outcome " + r[:50]
+                elif r == "err:deactivated" and (allow or h is not None or s is not None or t is not None):
+                    bad = "'deactivated' for a query that allows deactivated versions or filters by hash / time / source transaction"
                 elif must == "ok":
                     bad = "no answer although one exists: " + r
             else:
+                if res["updated_raw"] != "-" and res["updated"] == res["created"]:
+                    bad = "metadata.Updated is set although it equals Created"
                 if must == "none":
                     bad = "answer for a query nothing can match"
                 if not allow and res["deact"]:
@@ -289,7 +298,7 @@ def run(ctx):
 
     def seq_op(k):
         return ops[seq_of.get(k, k)] if seq_of.get(k, k) is not None else ops[k]
-    strip_add = lambda l: re.sub(r"^((adderr|addpanic|addswallowed)@\S+ )+", "", l)
+    strip_add = lambda l: re.sub(r"^((adderr|addpanic|addswallowed|restarterr)@\S+ )+", "", l)
     for (s, kind), lines in by_set.items():
         ref_i, ref = lines[0]
         for i, l in lines[1:]:
@@ -320,6 +329,9 @@ def run(ctx):
             full_of_seq[i] = parse_line(strip_add(line))
         elif seq_of.get(i) in full_of_seq:
             # after a restart (same database, new store object) nothing observable may change
+            if line.startswith("restarterr") or line.startswith("observepanic"):
+                flag("restart-fails", "store-cannot-be-reopened", "Configure() of a new store object on the same database fails", i)
+                continue
             before, after = full_of_seq[seq_of[i]], parse_line(line)
             if before["glob"] != after["glob"]:
                 flag("restart-changes-observation", "restart-changes-counters-or-iterators", f"counters/iterators differ after re-opening the store: {before['glob']} vs {after['glob']}", i)
